@@ -66,34 +66,36 @@ func (x *vctx) eval(v ssa.Value) vexpr {
 	if len(x.subst) == 0 && isNumeric(v.Type()) {
 		inv := false
 		name := v.Name()
-		switch t := v.(type) {
+		cv, _ := x.e.canon(v)
+		switch t := cv.(type) {
 		case *ssa.Parameter:
 			inv, name = true, t.Name()
 		case *ssa.Const:
 		default:
-			if in, ok := v.(ssa.Instruction); ok && in.Parent() == x.s.fn && !inAnyLoop(x.s.fn, in.Block()) {
-				inv = true
+			if in, ok := cv.(ssa.Instruction); ok && !inAnyLoop(in.Parent(), in.Block()) {
+				inv, name = true, cv.Name()
 			}
 		}
 		if inv {
 			sym := "inv:" + name
-			x.s.invs[sym] = v
+			x.s.invs[sym] = cv
 			return vexpr{rf: rPoly(pSym(sym))}
 		}
 	}
 	if r, ok := constRat(v); ok {
 		return vexpr{rf: rPoly(pConst(r))}
 	}
-	// a vector computed outside every loop of the site: additive block offset
+	// a vector computed outside every loop (of the site or of its single caller): additive block offset
 	if isVec3(v.Type()) && len(x.subst) == 0 {
-		if in, ok := v.(ssa.Instruction); ok && in.Parent() == x.s.fn && !inAnyLoop(x.s.fn, in.Block()) {
-			return vexpr{rf: rPoly(pInt(0)), ks: []ssa.Value{v}}
+		cv, _ := x.e.canon(v)
+		if in, ok := cv.(ssa.Instruction); ok && !inAnyLoop(in.Parent(), in.Block()) {
+			return vexpr{rf: rPoly(pInt(0)), ks: []ssa.Value{cv}}
 		}
 	}
 	switch t := v.(type) {
 	case *ssa.UnOp:
 		if t.Op == token.MUL {
-			if sa, idx, ok := x.s.m.slotLoad(t); ok {
+			if sa, idx, ok := x.e.slotLoad(t); ok {
 				if sym, ok := x.s.symFor(sa, idx, x.e); ok {
 					return vexpr{rf: rPoly(pSym(sym))}
 				}
@@ -231,7 +233,11 @@ func (x *vctx) call(call *ssa.Call) vexpr {
 				sub[p] = a[i]
 			}
 		}
-		inner := &vctx{s: x.s, e: x.s.m.eval(nil), subst: sub, depth: x.depth}
+		ie := x.e.enter(call)
+		if ie == nil {
+			ie = x.s.root()
+		}
+		inner := &vctx{s: x.s, e: ie, subst: sub, depth: x.depth}
 		return inner.eval(ret.Results[0])
 	}
 	name := "?"
@@ -266,14 +272,14 @@ func (s *site) vertices() bool {
 			if !ok || ssau.Builtin(call) != "append" || len(call.Call.Args) != 2 {
 				continue
 			}
-			sa := s.m.arrOf(call.Call.Args[1])
+			sa, _ := s.root().arr(call.Call.Args[1])
 			if sa == nil || sa.N != 3 || sa.Opaque != "" {
 				continue
 			}
 			var em emission
 			em.call = call
 			good := true
-			e := s.m.eval(nil)
+			e := s.root()
 			for k := 0; k < 3; k++ {
 				vals := e.slotVals(sa, k)
 				if len(vals) != 1 {
@@ -301,7 +307,7 @@ func (s *site) vertices() bool {
 			usesP := false
 			opaque := false
 			for k := 0; k < 3; k++ {
-				x := &vctx{s: s, e: s.m.eval(nil)}
+				x := &vctx{s: s, e: s.root()}
 				xs[k] = x.eval(em.slots[k])
 				if xs[k].fail != "" {
 					opaque = true
@@ -343,7 +349,7 @@ func (s *site) vertices() bool {
 						}
 					}
 					if n == 1 {
-						x := &vctx{s: s, e: s.m.eval(nil)}
+						x := &vctx{s: s, e: s.root()}
 						xs[k] = x.eval(vecArg)
 						if kind == "" || kind == "lookup" {
 							kind = "lookup"
@@ -353,7 +359,7 @@ func (s *site) vertices() bool {
 					kind = "mixed"
 					continue
 				}
-				a := s.m.eval(nil).aff(v)
+				a := s.root().aff(v)
 				if !a.isConst() && a.Coef == 1 {
 					offs[k] = a.Off
 					if kind == "" || kind == "offset" {
@@ -558,7 +564,7 @@ func dependsOnCornerArrays(s *site, slots []ssa.Value) string {
 			return
 		}
 		seen[v] = true
-		if sa, _, ok := s.m.slotLoad(v); ok && (sa == s.P || sa == s.C) {
+		if sa, _, ok := s.root().slotLoad(v); ok && (sa == s.P || sa == s.C) {
 			if !underDyn && sa == s.P {
 				direct = true
 			}
